@@ -396,7 +396,7 @@ def run(ck):
                 XROOT[0] = None
 
 
-QUICK_WORKLOADS = ("solve", "user", "edit", "user@xfs")
+QUICK_WORKLOADS = ("solve", "user", "edit", "user@xfs", "copy")
 
 
 def workloads(quick=False):
